@@ -27,7 +27,8 @@ add("C06", "exploration",
     "Seeded search over hash seeds (0-7) x --threads (1-16) x task-to-worker placements (policy 'placed' realises random "
     "placements; also serial/spread/pile/rr/pct/random interleavings) x memory mode x keep_tmp x buffer sizes, on workloads with "
     "read groups, cross-chromosome multi-mappers, tied intergenic multi-mappers, genes sharing introns, a long split locus and "
-    "1-2 experiments; every execution runs the real pipeline in real forked processes and is compared byte-wise "
+    "1-2 experiments, genes with two unannotated isoforms, a library whose tail statistics switch the polyA requirement on, output "
+    "folders with the leftovers of another data set; every execution runs the real pipeline in real forked processes and is compared byte-wise "
     "(after header normalisation) with the reference execution of the same workload. Sampling, not proof.",
     "Trusted: SimPool as a model of ProcessPoolExecutor.map under fork (fidelity self-test compares against the real pool); "
     "inputs come from the seeded workload generator (several chromosomes, read groups, multi-mappers, 1-2 experiments).",
@@ -57,7 +58,8 @@ _SWEEP_NOTE = ("Trusted: the oracle's independent parsers and the generator's gr
                "generator.")
 _SWEEP_TEXT = ("Seeded search: complete simulated executions of the real pipeline over random workloads x cells (hash seed, "
                "--threads, SimPool placement/interleaving, memory mode, keep_tmp, buffer size), a quarter of them killed at a "
-               "seeded file-system event and resumed; the final outputs of every run are judged by this property's own oracle. ")
+               "seeded file-system event (every fourth of these: interrupted with SIGINT) and resumed, some in an output folder that an "
+               "earlier - complete or killed - run left behind; the final outputs of every run are judged by this property's own oracle. ")
 add("C02", "exploration", _SWEEP_TEXT + "Oracle: every cell of the gene/transcript/transcript-model tables is 0 or the documented "
     "weighted sum of the reported assignments, per-read total <= 1, __ambiguous/__no_feature/__not_aligned, TPM = rescaled counts; "
     "all five strategies for genes and transcripts x both normalisations are swept; a read counted as ambiguous must be shared by "
@@ -74,7 +76,7 @@ add("C05", "exploration", _SWEEP_TEXT + "Oracle: every read with a mapped primar
     "(command line or defaults) is reported in BED and read_assignments (both memory back-ends), no read without admissible alignment "
     "is, no identical records, log statistics = input record counts; workloads contain > 64 kb read islands split at coverage "
     "valleys (straddling read, short leading/tail reads), >= 1024 short reads inside one coverage bin, deep islands whose last "
-    "valley is their last bin, multi-file experiments with unmapped records, mapping qualities on and around the cut-offs. A machine "
+    "valley is their last bin, a read-through read bridging two genes across the valley, multi-file experiments with unmapped records, mapping qualities on and around the cut-offs. A machine "
     "layer feeds seeded read islands to the real coverage binning, split_coverage_regions and InMemoryAlignmentStorage and compares "
     "with a brute-force overlap model (no alignment without a region; store returns exactly the overlapping alignments).",
     _SWEEP_NOTE,
@@ -152,7 +154,7 @@ add("C15", "exploration",
     "and identical record sequence = byte alignment), compares the compact record of the --high_memory object path with the one "
     "of the stream path, and round-trips the *_multimappers_* framing and the _info file. Pipeline: a --keep_tmp run followed by "
     "a --read_assignments run (one saved prefix, or the prefixes of two experiments) under another hash seed/threads/schedule must "
-    "reproduce the first run's outputs.",
+    "reproduce the first run's outputs, and so must a second restart from the same saved assignments.",
     "Trusted: the list model and field extractors; reader calls are bounded by a watchdog (a misaligned stream may loop 2^32 "
     "times); exon lists are non-empty and strings shorter than 65535 bytes (outside the format's domain otherwise).",
     "deterministic simulation of record histories through storage: Hypothesis stateful machine over the real writer and both real "
@@ -165,7 +167,8 @@ add("C18", "exploration",
     "before - including the same intron on opposite strands in both orders. Pipeline: --check_canonical runs of workloads with "
     "antisense genes sharing introns and non-canonical genes under permuted tie order, placement and hash seed; every Canonical "
     "flag and the strand of every novel spliced model is recomputed from the FASTA; reads with an exon outside the annotated gene "
-    "span; unannotated loci with non-canonical introns whose model strand must not contradict the unanimous polyA/polyT evidence of "
+    "span (and a later read that sticks out on the other side); genes whose introns are annotated on both strands and that have "
+    "unannotated isoforms, under pinned hash seeds; unannotated loci with non-canonical introns whose model strand must not contradict the unanimous polyA/polyT evidence of "
     "the supporting reads (generator ground truth).",
     "Trusted: the 15-line reference functions; strand '.' records are only checked for a well-formed flag; models sharing an intron "
     "with a reference transcript of the other strand are not judged for strand.",
